@@ -7,6 +7,7 @@ lines must contain those markers.  No offset arithmetic is modelled.
 """
 import io
 import os
+import re
 import random
 import warnings
 import contextlib
@@ -212,6 +213,15 @@ def gen_module(rng, seed):
     for k in range(n):
         for _ in range(rng.randint(0, 2)):
             out.append('')
+        if rng.random() < 0.2:
+            # characters str.splitlines() takes for line ends but the compiler does not (form feed as GNU style page
+            # break, separators inside comments and string literals), and a bare carriage return, which the compiler
+            # does count as a line end
+            pick = rng.choice(['ff', 'ff_comment', 'fs_string', 'nel_string', 'vt_string', 'cr'])
+            out.append({'ff': '\x0c', 'ff_comment': '# section\x0c break', 'fs_string': '_s%d = "a\x1cb\x1dc\x1e"' % k,
+                        'nel_string': '_u%d = "x\u2028y\x85z"' % k, 'vt_string': '_v%d = "tab\x0bvt"' % k,
+                        'cr': '_c%d = 1\r_e%d = 2' % (k, k)}[pick])
+            feats.add('line-separator-character:' + pick)
         kind = rng.choice(['func', 'deco', 'class', 'method', 'deco2', 'nestedmethod'])
         if kind in ('func', 'deco', 'deco2'):
             if kind == 'deco':
@@ -253,9 +263,14 @@ def check_module(ctx, idx, seed):
     src, expect, style, feats = gen_module(rng, idx)
     compile(src, '<gen>', 'exec')
     path = os.path.join(ctx.tmp, 'lmod_%d_%d_zz.py' % (ctx.shard, idx))
-    with open(path, 'w') as f:
+    # line ends of the file as a whole: LF, CRLF (the docstrings then hold CRLF too)
+    eol = rng.choice(['\n', '\n', '\n', '\r\n'])
+    if eol != '\n':
+        src = src.replace('\n', eol)
+        feats.add('file-line-ends:crlf')
+    with open(path, 'w', newline='', encoding='utf8') as f:
         f.write(src)
-    flines = src.split('\n')
+    flines = re.split('\r\n|\r|\n', src)      # the lines as the compiler counts them
     case = {'index': idx, 'case_seed': seed}
 
     def bad(mech, msg, **kw):
